@@ -8,12 +8,13 @@ CONSTANTS
   Correlated = FALSE
   AnsOpts = {}
   CmpReturns = {}
-  LeafAns = {"a0", "a1", "a1f"}
+  LeafAns = {"a0", "a12", "a1", "a1f"}
   LeafCmp = {"T", "P"}
   TableGrades = {"c0", "c12", "c1"}
   ListAns = {}
   MaxItems = 1
   Layouts = {"flat2", "flat3", "g121", "g212", "g1212"}
+  TableOnly = {"g1212"}
   OkRecomputed = TRUE
 INVARIANT InvStage
 INVARIANT InvGradesInUnit
